@@ -32,16 +32,16 @@ package main
 
 //@ props C17
 
-//@ func writeFileIfChanged
+//@ func writeFileIfChanged (name, data, perm)
 //@   noframe
 
 // coqFileContents writes only into its own buffer (frame by the store sweep of C06)
-//@ func coqFileContents
+//@ func coqFileContents (f)
 //@   may_reject
 //@   modifies fresh
 //@   noframe
 
-//@ func translate
+//@ func translate (pkgPatterns, outRootDir, modDir, ignoreErrors, tr)
 //@   may_reject
 //@   pure_funcvalues
 //@   ensures_local [returns normally (exit status 0) only if the patterns were valid and every package translated] patternError == nil && forall j int :: 0 <= j && j < len(errs) ==> errs[j] == nil
